@@ -151,6 +151,17 @@ def ground_axioms(formulas, depth=1):
                 c = byid.get(z3.simplify(a + b, sort_sums=True).sexpr())
                 if c is not None and c.get_id() not in (a.get_id(), b.get_id()):
                     ax.append(z3.Implies(z3.And(a >= 0, b >= 0), pow2(c) == pow2(a) * pow2(b)))
+        if len(orig) <= 8:
+            # the same lemma for arguments that are equal only under the path condition (slice bounds
+            # wrapped in Python's index normalisation): conditional on the equation
+            for i, a in enumerate(orig):
+                for b in orig[i:]:
+                    if byid.get(z3.simplify(a + b, sort_sums=True).sexpr()) is not None:
+                        continue
+                    for c in orig:
+                        if c.get_id() in (a.get_id(), b.get_id()):
+                            continue
+                        ax.append(z3.Implies(z3.And(a >= 0, b >= 0, a + b == c), pow2(c) == pow2(a) * pow2(b)))
     # x / pow2(k) with 0 <= x < pow2(a), 0 <= k <= a:  x / pow2(k) < pow2(a - k)
     divs = _mods(formulas, kind=z3.Z3_OP_IDIV)
     if len(divs) * len(orig) <= 300 and len(orig) <= 24:
@@ -169,6 +180,11 @@ def ground_axioms(formulas, depth=1):
                 a = byid2.get(z3.simplify(c + k, sort_sums=True).sexpr())
                 if a is not None:
                     ax.append(z3.Implies(z3.And(x >= 0, x < pow2(a), k >= 0, c >= 0), x / pow2(k) < pow2(c)))
+                elif len(orig) <= 8:
+                    for a2 in orig:
+                        if a2.get_id() != c.get_id():
+                            ax.append(z3.Implies(z3.And(x >= 0, x < pow2(a2), k >= 0, c >= 0, a2 == c + k),
+                                                 x / pow2(k) < pow2(c)))
     # x % pow2(t): range, and identity on [0, pow2(t))
     for (x, t) in _mods(formulas):
         ax.append(z3.And(x % pow2(t) >= 0, x % pow2(t) < pow2(t)))
@@ -225,6 +241,7 @@ def ground_axioms(formulas, depth=1):
                 ax.append(z3.Implies(b == 0, e == a))
                 ax.append(z3.Implies(a == 0, e == b))
                 ax.append(z3.Implies(a == b, e == 0))
+                ax.append(z3.Implies(z3.And(a >= 0, b >= 0), (e == 0) == (a == b)))     # [lean: xor_eq_zero']
             # operands below 2**k stay below 2**k
             for t in ts:
                 ax.append(z3.Implies(z3.And(t >= 0, a >= 0, a < pow2(t), b >= 0, b < pow2(t)),
@@ -250,3 +267,42 @@ def concrete_interp(w_max=12):
     return {'pow2': lambda k: 1 << k if k >= 0 else 1, 'band': lambda a, b: a & b,
             'bor': lambda a, b: a | b, 'bxor': lambda a, b: a ^ b,
             'bitlen': lambda x: int(x).bit_length()}
+
+
+def concrete_theory(formulas, maxw=16):
+    """Definitions that pin the uninterpreted symbols to their real meaning on a bounded domain
+    (arguments of pow2 in [-1, maxw], operands of the bit operations and of bitlen in
+    [0, 2**(maxw+1))).  Used to CONFIRM a `sat` answer of the abstract theory: a counter-model that
+    survives these definitions is a genuine counterexample over Python integers; one that does not is
+    spurious (a missing lemma instance) or needs larger numbers, and is reported as undecided."""
+    out = []
+    apps = _apps(formulas)
+    seen = set()
+    for e in apps['pow2']:
+        t = e.arg(0)
+        k = t.sexpr()
+        if k in seen:
+            continue
+        seen.add(k)
+        out.append(z3.And(t >= -1, t <= maxw))
+        tab = z3.IntVal(1)
+        for v in range(maxw, 0, -1):
+            tab = z3.If(t == v, z3.IntVal(1 << v), tab)
+        out.append(pow2(t) == tab)
+    nb = maxw + 2
+    lim = 1 << (maxw + 1)
+    for nm, f in (('band', band), ('bor', bor), ('bxor', bxor)):
+        for e in apps[nm]:
+            a, b = e.arg(0), e.arg(1)
+            out.append(z3.And(a >= 0, a < lim, b >= 0, b < lim))
+            x, y = z3.Int2BV(a, nb), z3.Int2BV(b, nb)
+            r = {'band': x & y, 'bor': x | y, 'bxor': x ^ y}[nm]
+            out.append(e == z3.BV2Int(r))
+    for e in apps['bitlen']:
+        x = e.arg(0)
+        out.append(z3.And(x >= 0, x < lim))
+        tab = z3.IntVal(0)
+        for v in range(1, maxw + 2):
+            tab = z3.If(x >= (1 << (v - 1)), z3.IntVal(v), tab)
+        out.append(e == tab)
+    return out
